@@ -157,6 +157,8 @@ val n_of_digits : bool list -> n
 
 val n_of_ascii : char -> n
 
+val hd : 'a1 -> 'a1 list -> 'a1
+
 val nth : nat -> 'a1 list -> 'a1 -> 'a1
 
 val nth_error : 'a1 list -> nat -> 'a1 option
@@ -1238,6 +1240,139 @@ val afm_read_expr : char list -> aexpr -> node result
 
 val afm_read_cst : adoc -> pfm result
 
+val nl : char list
+
+val tab : char list
+
+val tabs0 : nat -> char list
+
+val w_safename : char list -> char list
+
+type sxf =
+| SxF of char list * sxitem list
+and sxitem =
+| SxSolitary of bool * sxf
+| SxGroup of z * z * sxf list
+
+val sx_name : sxf -> char list
+
+type splot_doc = { sp_model_name : char list; sp_root : sxf;
+                   sp_clauses : (bool * char list) list list }
+
+val splot_tree : feature -> sxf
+
+val splot_literal : ndata -> (bool * char list) result
+
+val splot_clauses : ctc list -> (bool * char list) list list result
+
+val splot_write : fm -> splot_doc result
+
+val sx_none : (char list -> bool) -> sxf -> bool
+
+val sx_sem : (char list -> bool) -> sxf -> bool
+
+val clause_true : (char list -> bool) -> (bool * char list) list -> bool
+
+val sxfm_sat : (char list -> bool) -> splot_doc -> bool
+
+val sx_label : char list -> char list
+
+val card_star : z -> char list
+
+val sx_lines : sxf -> nat -> char list list
+
+val render_splot : splot_doc -> char list
+
+val splot_text : fm -> char list result
+
+type pl =
+| PVar of char list
+| PNot of pl
+| PAnd of pl * pl
+| POr of pl * pl
+| PImp of pl * pl
+| PIff of pl * pl
+| PParen of pl
+
+val pl_eval : (char list -> bool) -> pl -> bool
+
+val render_pl : pl -> char list
+
+val pjoin : (pl -> pl -> pl) -> pl list -> pl -> pl
+
+val combs : nat -> nat list -> nat list list
+
+val pl_relation : char list -> relation -> pl result
+
+val pl_node : node -> pl result
+
+val pl_write : fm -> pl list result
+
+val pl_sat : (char list -> bool) -> pl list -> bool
+
+val pl_lines : fm -> char list list result
+
+type cgroup =
+| GXor
+| GOr0
+| GMux
+| GCardC of z * z
+
+type clf =
+| Clf of cgroup option * char list * bool * bool
+   * (char list * char list) list * clf list
+
+type cexpr =
+| CxVar of char list
+| CxNot of cexpr
+| CxBin of char list * cexpr * cexpr
+| CxParen of cexpr
+
+type cdoc = { cd_attrdecls : (char list * char list) list; cd_root : 
+              clf; cd_ctcs : cexpr list; cd_instance_of : char list }
+
+val clafer_group : feature -> cgroup option
+
+val py_str : aval -> char list
+
+val clafer_value : aval -> char list
+
+val clafer_type : aval -> char list
+
+val clafer_tree : feature option -> feature -> clf
+
+val clafer_operator : astop -> char list option
+
+val clafer_node : node -> cexpr result
+
+val clafer_attrdecls : fm -> (char list * char list) list
+
+val clafer_write : fm -> cdoc result
+
+val cl_name : clf -> char list
+
+val cl_optional : clf -> bool
+
+val cl_none : (char list -> bool) -> clf -> bool
+
+val group_bounds : cgroup -> nat -> z * z
+
+val cl_sem : (char list -> bool) -> clf -> bool
+
+val cx_eval : (char list -> bool) -> cexpr -> bool
+
+val clafer_sat : (char list -> bool) -> cdoc -> bool
+
+val render_cgroup : cgroup -> char list
+
+val render_clf : clf -> nat -> char list
+
+val render_cexpr : cexpr -> char list
+
+val render_clafer : cdoc -> char list
+
+val clafer_text : fm -> char list result
+
 val metric_methods : char list list
 
 type mval =
@@ -1443,6 +1578,10 @@ val op_eqq : fm -> fm -> sexp
 val e_mval : mval -> sexp
 
 val e_entry : entry -> sexp
+
+val e_sels : char list list list -> sexp
+
+val op_export_sat : fm -> sexp
 
 val bad : char list -> sexp
 
